@@ -28,25 +28,25 @@ fn ill(state: &str, op: &Op) -> String {
 
 macro_rules! walkers {
     ($modname:ident, $Out:ident, clone = $clone:tt) => {
-        walkers!(@gen $modname, $Out, $clone, Owning<$Out>, $Out, $Out, $Out::new);
+        walkers!(@gen $modname, $Out, $clone, Owning<$Out>, $Out, $Out, $Out::new, u8, arg_u8);
     };
     // $Kind: the OutputKind; $AnsOut: what an answer function returns (may mention 'u); $RetTy: the value handed to returns();
-    // $mk: String -> $RetTy
-    (@gen $modname:ident, $Out:ident, $clone:tt, $Kind:ty, $AnsOut:ty, $RetTy:ty, $mk:expr) => {
+    // $mk: String -> $RetTy; $In: the (single) input type; $get: &$In -> u8
+    (@gen $modname:ident, $Out:ident, $clone:tt, $Kind:ty, $AnsOut:ty, $RetTy:ty, $mk:expr, $In:ty, $get:expr) => {
         pub mod $modname {
             use super::*;
 
-            pub type AnsFn = dyn (for<'u> Fn(&'u Unimock, u8) -> $AnsOut) + Send + Sync;
+            pub type AnsFn = dyn (for<'u> Fn(&'u Unimock, $In) -> $AnsOut) + Send + Sync;
 
             pub trait Sig:
                 MockFn<OutputKind = $Kind, AnswerFn = AnsFn>
-                + for<'i> MockFn<Inputs<'i> = u8>
+                + for<'i> MockFn<Inputs<'i> = $In>
                 + 'static
             {
             }
             impl<F> Sig for F where
                 F: MockFn<OutputKind = $Kind, AnswerFn = AnsFn>
-                    + for<'i> MockFn<Inputs<'i> = u8>
+                    + for<'i> MockFn<Inputs<'i> = $In>
                     + 'static
             {
             }
@@ -57,12 +57,13 @@ macro_rules! walkers {
                 move |m: &mut Matching<F>| {
                     if let Some(mask) = mask {
                         // bit 16: user code that panics - the matcher itself, when shown the argument 7
-                        m.func(move |a: &u8, reporter| {
+                        m.func(move |a: &$In, reporter| {
+                            let a: u8 = $get(a);
                             trace_push(dbg.unwrap_or(999), reporter.enabled());
-                            if mask & (1 << 16) != 0 && *a == 7 {
+                            if mask & (1 << 16) != 0 && a == 7 {
                                 panic!("user:matcher");
                             }
-                            (mask >> *a) & 1 == 1
+                            (mask >> a) & 1 == 1
                         });
                     }
                     if let Some(d) = dbg {
@@ -71,8 +72,9 @@ macro_rules! walkers {
                 }
             }
 
-            fn answer(f: u32) -> impl (for<'u> Fn(&'u Unimock, u8) -> $AnsOut) + Send + Sync {
+            fn answer(f: u32) -> impl (for<'u> Fn(&'u Unimock, $In) -> $AnsOut) + Send + Sync {
                 move |_, a| {
+                    let a: u8 = $get(&a);
                     if f >= 1000 {
                         panic!("user:ans");
                     }
@@ -306,7 +308,17 @@ macro_rules! walkers {
 walkers!(val, Val, clone = true);
 walkers!(uniq, Uniq, clone = false);
 // a composite single-use value: two owned, non-Clone components around a borrowed one
-walkers!(@gen triple, Uniq, false, <PMock::mt as MockFn>::OutputKind, (Uniq, &'u str, Uniq), (Uniq, &'static str, Uniq), mk_triple);
+walkers!(@gen triple, Uniq, false, <PMock::mt as MockFn>::OutputKind, (Uniq, &'u str, Uniq), (Uniq, &'static str, Uniq), mk_triple, u8, arg_u8);
+// an argument type whose Debug impl counts its invocations
+walkers!(@gen dbg, Val, true, Owning<Val>, Val, Val, Val::new, A8, arg_a8);
+
+fn arg_u8(a: &u8) -> u8 {
+    *a
+}
+
+fn arg_a8(a: &A8) -> u8 {
+    a.0
+}
 
 fn mk_triple(s: String) -> (Uniq, &'static str, Uniq) {
     (Uniq::new(s.clone()), "lent", Uniq::new(s))
@@ -323,6 +335,7 @@ pub fn push_call(dc: &mut DynClause, mid: u32, opener: Opener, pat: &Pat) -> Res
         6 => val::push_call(dc, GMock::g.with_types::<u8>(), opener, pat),
         7 => val::push_call(dc, GMock::g.with_types::<u16>(), opener, pat),
         9 => triple::push_call(dc, PMock::mt, opener, pat),
+        40 => dbg::push_call(dc, DBMock::db, opener, pat),
         38 => val::push_call(dc, R1Mock::get.with_types::<u8>(), opener, pat),
         39 => val::push_call(dc, R2Mock::get.with_types::<u8>(), opener, pat),
         _ => Err(format!("no such method {mid}")),
@@ -340,6 +353,7 @@ pub fn push_stub(dc: &mut DynClause, mid: u32, pats: &[Pat]) -> Result<(), Strin
         6 => val::push_stub(dc, GMock::g.with_types::<u8>(), pats),
         7 => val::push_stub(dc, GMock::g.with_types::<u16>(), pats),
         9 => triple::push_stub(dc, PMock::mt, pats),
+        40 => dbg::push_stub(dc, DBMock::db, pats),
         38 => val::push_stub(dc, R1Mock::get.with_types::<u8>(), pats),
         39 => val::push_stub(dc, R2Mock::get.with_types::<u8>(), pats),
         _ => Err(format!("no such method {mid}")),
